@@ -58,6 +58,14 @@ CHECKS = {
              "Completeness of the checker (closedness of the Bellman-Ford labels) is checked per query, not proved.",
         technique="Coq-proved sound optimality checker (closed-labelling argument) applied to every implementation answer (translation validation)",
         design="§7 C15"),
+    "C09": dict(
+        text="Theorems (Coq, every operation from every reachable state, hence every interleaving): base operations change only the base graph, extra-context operations only the "
+             "selected extra graph (all others stay EQUAL); with nothing selected every extra mutator fails without change and readers report nothing; set_current succeeds iff "
+             "id <= count; add_new returns count+1; the two index maps are independent last-write-wins maps; every step refines an abstract context whose component graphs are C08's "
+             "directed-graph spec (so lookups/relations are faithful), and the spec checker proved to accept the model is applied to the implementation's observed runs of ALL contexts.",
+        note=LEVEL_NOTE_COMMON + "Axioms: none. Component graphs are C08's UltraGraph model; HashMaps as association lists; contextoids represented by their id.",
+        technique="Coq proof (frame lemmas + refinement to abstract context, induction over histories) + differential correspondence + proved spec checker as oracle",
+        design="§7 C09"),
 }
 
 ALL = [f"C{n:02d}" for n in range(1, 20)]
